@@ -81,6 +81,29 @@ fn observe<C: CellType>(req: &Value) -> Value {
                 }
                 execs.push(json!([b, n + 1, fnv(&bytes)]));
             }
+            // the same executor through different entry points in turn: what one call leaves behind in the
+            // executor (cached code, budgets) must not reach the next.  Labels: <backend>~<entry>~<sequence>
+            if execute == 1 {
+                let ex = json!({"backend": b, "level": level, "mode": "exec"});
+                let l3 = json!({"backend": b, "level": level, "mode": "limited", "budget": 3});
+                let lb = json!({"backend": b, "level": level, "mode": "limited", "budget": 4611686018427387904u64});
+                for (si, seq) in [vec![&l3, &ex, &lb, &l3, &ex], vec![&ex, &l3, &lb, &ex]].iter().enumerate() {
+                    let cfgs: Vec<run::RunCfg> = seq.iter().map(|j| run::RunCfg::from_json(j)).collect();
+                    let reps = run::run_sequence(code, C::BITS, &cfgs, &input);
+                    for (n, (log, ret)) in reps.into_iter().enumerate() {
+                        let mut bytes = ret.into_bytes();
+                        for e in log {
+                            bytes.extend_from_slice(format!("{e:?}").as_bytes());
+                        }
+                        let entry = match seq.get(n).map(|j| j["budget"].as_u64()) {
+                            Some(Some(3)) => "lim3",
+                            Some(Some(_)) => "limbig",
+                            _ => "exec",
+                        };
+                        execs.push(json!([format!("{b}~{entry}~{si}"), n + 1, fnv(&bytes)]));
+                    }
+                }
+            }
         }
     }
     json!({"artifacts": arts, "executions": execs})
